@@ -2,7 +2,7 @@ from __future__ import annotations
 
 from typing import TypeVar, Type, Any
 
-from .avp import Avp, AvpGrouped
+from .avp import Avp, AvpGrouped, AvpDecodeError
 from .avp.generator import AvpGenType, generate_avps_from_defs
 from .packer import Packer, Unpacker
 
@@ -449,7 +449,12 @@ class UndefinedMessage(Message):
 
     """
     def __post_init__(self):
-        self._assign_attr_values(self, self.avps)
+        try:
+            self._assign_attr_values(self, self.avps)
+        except RecursionError:
+            raise AvpDecodeError(
+                "grouped AVPs are nested too deeply to be converted into "
+                "attributes") from None
 
     def _assign_attr_values(self, parent: UndefinedMessage | UndefinedGroupedAvp,
                             avps: list[Avp]):
